@@ -409,7 +409,7 @@ def observed_tree(cs):
     return obs
 
 
-def judge_component(ctx, entries, args):
+def judge_component(ctx, entries, args, catalog=None):
     """args: JSON-able description of one generate_component call (also the replay witness)."""
     from fim.slivers import component_catalog as cc
     from fim.slivers.attached_components import ComponentType
@@ -447,7 +447,7 @@ def judge_component(ctx, entries, args):
         ctx.count({'none': 'comp:no-labels', 'mac-only': 'comp:labels-mac-only',
                    'scalar-bdf': 'comp:labels-scalar-bdf'}.get(args['labels_shape'], 'comp:labels-list-bdf'))
     try:
-        cs = cc.ComponentCatalog().generate_component(**kw)
+        cs = (catalog or cc.ComponentCatalog()).generate_component(**kw)
     except Exception as e:
         w['raised'] = f'{type(e).__name__}: {e}'
         if has_if and args.get('ids') is not None and args.get('labels') is None:
@@ -667,6 +667,30 @@ def run_components(ctx):
             ctx.sample({'generate_component': a})
             sampled = True
     ctx.info['component_argument_combinations'] = n
+    # one catalogue object serving many requests (an aggregate builder keeps one): every ordered pair of catalogued models is
+    # asked for in a row, by either naming; what the second request returns must not depend on the first
+    from fim.slivers import component_catalog as cc
+    shared = cc.ComponentCatalog()
+    k = 0
+    for i, e1 in enumerate(entries):
+        for j, e2 in enumerate(entries):
+            for n1 in ('model_type', 'ctype_model'):
+                for n2 in ('model_type', 'ctype_model'):
+                    k += 1
+                    if k % ctx.nshards != ctx.shard:
+                        continue
+                    pair = []
+                    for ei, e, nm in ((i, e1, n1), (j, e2, n2)):
+                        a = {'entry': ei, 'naming': nm, 'name': 'nic1', 'labels_shape': 'none', 'ids': None, 'labels': None,
+                             'ns_id': None, 'parent': None, 'after': None if not pair else [pair[0]['entry'], pair[0]['naming']]}
+                        if nm == 'model_type':
+                            a['member'] = names[ei]
+                        else:
+                            a['model'] = e['Model']
+                        pair.append(a)
+                    ctx.count('comp:consecutive-requests-on-one-catalogue')
+                    for a in pair:
+                        judge_component(ctx, entries, a, catalog=shared)
 
 
 def run(ctx):
@@ -689,7 +713,20 @@ def replay(ctx, case):
         if extra:
             judge_map(ctx, orc, cat, tri, extra=extra, plain_answer=plain)
     elif part == 'component':
-        judge_component(ctx, read_components(), w['args'])
+        entries = read_components()
+        a = w['args']
+        if a.get('after'):
+            # the request came second on a catalogue object that had just served another one
+            from fim.slivers import component_catalog as cc
+            shared = cc.ComponentCatalog()
+            ei, nm = a['after']
+            names = [massage(e['Type']) + '_' + massage(e['Model']) for e in entries]
+            first = {'entry': ei, 'naming': nm, 'name': 'nic1', 'labels_shape': 'none', 'ids': None, 'labels': None, 'ns_id': None,
+                     'parent': None, 'member': names[ei], 'model': entries[ei]['Model']}
+            judge_component(ctx, entries, first, catalog=shared)
+            judge_component(ctx, entries, a, catalog=shared)
+        else:
+            judge_component(ctx, entries, a)
     elif part == 'sizes':
         from fim.slivers.instance_catalog import InstanceCatalog
         static_sizes(ctx, SizeOracle(), InstanceCatalog())
